@@ -851,8 +851,8 @@ CTRL = None
 
 
 def decide(b):
-    if CTRL is not None and time.time() > CTRL.deadline:
-        raise PathLimit(f'path exploration exceeded {CTRL.max_seconds} s (possible non-termination of the code '
+    if CTRL is not None and time.process_time() > CTRL.deadline:
+        raise PathLimit(f'path exploration exceeded {CTRL.max_seconds} s of CPU time (possible non-termination of the code '
                         'under verification)')
     t = const_truth(b)
     if t is not None:
@@ -875,7 +875,8 @@ class Controller:
     def __init__(self, oracle, max_paths=64, max_decisions=4000, max_seconds=90):
         self.oracle = oracle
         self.max_seconds = max_seconds
-        self.deadline = time.time() + max_seconds
+        # CPU time of this process, not wall-clock: the verdict must not depend on how busy the machine is
+        self.deadline = time.process_time() + max_seconds
         self.max_paths = max_paths
         self.max_decisions = max_decisions
         self.stats = dict(paths=0, decisions=0, forced=0, oracle_calls=0,
@@ -904,8 +905,8 @@ class Controller:
         self.stats['decisions'] += 1
         if self.stats['decisions'] > self.max_decisions:
             raise PathLimit('too many decisions')
-        if time.time() > self.deadline:
-            raise PathLimit(f'path exploration exceeded {self.max_seconds} s (possible non-termination of the code '
+        if time.process_time() > self.deadline:
+            raise PathLimit(f'path exploration exceeded {self.max_seconds} s of CPU time (possible non-termination of the code '
                             'under verification)')
         ft = self._feasible(b)
         ff = self._feasible(nb)
